@@ -38,8 +38,8 @@ ASSUMPTIONS = [
 ]
 
 OPS = ['add B:1', 'add B:2', 'add X:1', 'add XX:1', 'add R:1', 'remove B:1', 'remove B',
-       'remove *:1', 'add BAD', 'remove X:1', 'add U:1', 'remove B:*', 'remove R:1', 'add ili', 'remove XX:1']
-NQ = 9       # quick tier: the first 9 operations
+       'remove *:1', 'add BAD', 'add BADX', 'remove X:1', 'add U:1', 'remove B:*', 'remove R:1', 'add ili', 'remove XX:1']
+NQ = 10      # quick tier: the first 10 operations
 
 
 def _pick(options, k):
@@ -60,7 +60,16 @@ def _docs():
         'X:1': docs.extension_small(p, 'X', base=('B', '1'), tag='x', btag=''),
         'XX:1': docs.extension_small(p, 'XX', base=('X', '1'), tag='y', btag='x', second=False),
         'BAD': _bad(p),
+        'BADX': _badx(p),
     }
+
+
+def _badx(p):
+    # an extension of B:1 whose relation points nowhere (skipped while B:1 is not installed,
+    # failing late otherwise)
+    ext = docs.extension_small(p, 'ZX', base=('B', '1'), tag='zx', btag='')
+    ext['entries'][1]['senses'][0]['relations'] = [{'target': 'nowhere', 'relType': 'also', 'meta': None}]
+    return ext
 
 
 def _bad(p):
@@ -124,12 +133,14 @@ def _apply(op, installed, world):
         I.Path = _FakePath
         A._add_ili(_FakePath('ili.tsv'), ProgressHandler(message=''))
         return installed
-    if kind == 'add' and arg == 'BAD':
+    if kind == 'add' and arg in ('BAD', 'BADX'):
         try:
             rt.quiet_add(docs.resource([world[arg]], '1.1'))
         except wn.Error:
             return installed          # a failed add leaves what is installed as it was
-        return installed + ['Z:1']    # (not expected: the resource is invalid)
+        if arg == 'BADX' and 'B:1' not in installed:
+            return installed          # skipped: its base is not installed
+        return installed + ['Z:1' if arg == 'BAD' else 'ZX:1']    # (not expected: invalid)
     if kind == 'add':
         rt.quiet_add(docs.resource([world[arg]], '1.1'))
         if arg in installed:
@@ -289,7 +300,7 @@ OBLIGATIONS = [
        bounds='all histories of 3 operations over the alphabet, from the empty database and from '
               'one that holds B:1 (partition = start state x first operation); '
               'universe: B:1, B:2, X:1 extending B:1, XX:1 extending X:1, R:1 requiring B:1 and a '
-              'lexicon that never exists, an invalid lexicon whose add fails, U:1 sharing ILIs, an ILI index (thorough tier: 15 '
+              'lexicon that never exists, an invalid lexicon and an invalid extension whose add fails, U:1 sharing ILIs, an ILI index (thorough tier: 16 '
               'operations)',
        outside='histories longer than 3 operations'),
 ]
